@@ -48,6 +48,8 @@ type Layout struct {
 	XrefHook func(x *RawXref) `json:"-"`
 	// ObjStmHook may rewrite /N, /First and the header pairs of an object stream.
 	ObjStmHook func(s *RawObjStm) `json:"-"`
+	// Trace, when non-nil, receives the abstract file (objects and cross-reference sections).
+	Trace *Trace `json:"-"`
 }
 
 // RawObj is one object on its way into the file. Drop suppresses it, Twice writes it twice.
@@ -535,6 +537,7 @@ func RenderPDF(doc LDoc, lay Layout) Rendered {
 	}
 
 	p := NewPDF(lay.EOL)
+	p.Tr = lay.Trace
 	prev := int64(-1)
 	ordinal := 0
 	xordinal := 0
@@ -596,7 +599,7 @@ func RenderPDF(doc LDoc, lay Layout) Rendered {
 			}
 			chain := pickChain(r, lay.Filters)
 			data = padTo(append([]byte(nil), data...), chain)
-			enc := EncodeChain(data, chain, r.Intn(6))
+			enc := EncodeChainTrace(data, chain, r.Intn(6), lay.Trace)
 			dict := strings.TrimSpace(o.dict(num) + " " + FilterDict(chain, lay.ParmsShape))
 			lenRef := 0
 			var pending *holder
